@@ -183,46 +183,36 @@ theorem counterexample_float_frames (x : PMInput) (o : PMObject) (h : build x = 
   · rw [he]; decide
   · rw [he]; decide
 
-/- Full statement: as below for every dtype and without `hs`. -/
-/-- **`read_applies_attached_mapping`** (partial: integer maps -- float frames cannot be read, `counterexample_float_frames`;
-no one-entry look-up table among the frame's mappings -- `counterexample_single_entry_lut`): reading frame `f` with the
-real-world value transform applies, to the stored values of plane `f / m`, channel `f mod m`, the mapping selected
+/- Full statement: as below for every dtype. -/
+/-- **`read_applies_attached_mapping`** (partial in the same way): reading frame `f` with the real-world
+value transform applies, to the stored values of plane `f / m`, channel `f mod m`, the mapping selected
 (by index, negative index, label or unit) from the mappings **of that channel** -- a look-up in its table
-or `slope * x + intercept`, refusing values outside the mapped range -- and nothing else. -/
+(also a table with one entry) or `slope * x + intercept`, refusing values outside the mapped range -- and nothing else. -/
 theorem read_applies_attached_mapping_partial (x : PMInput) (o : PMObject) (h : build x = .ok o)
-    (hel : o.element = "PixelData") (hw : CellsWF x) (f : Nat) (hf : f < x.n * x.m) (sel : Selector)
-    (hs : ∀ mp ∈ x.maps (f % x.m), mp.singleEntryLut = false) :
+    (hel : o.element = "PixelData") (hw : CellsWF x) (f : Nat) (hf : f < x.n * x.m) (sel : Selector) :
     readReal o f sel =
-      (select (x.maps (f % x.m)) sel).bind (fun mp => applyMapping mp ((plane x (f / x.m) (f % x.m)).map cellValue)) := by
-  rw [readReal_build x o h hel hw f hf sel]
-  cases hsel : select (x.maps (f % x.m)) sel with
-  | error e => rfl
-  | ok mp =>
-    show applyOnRead mp _ = applyMapping mp _
-    exact applyOnRead_of_not_single mp _ (hs mp (select_mem _ _ _ hsel))
+      (select (x.maps (f % x.m)) sel).bind (fun mp => applyMapping mp ((plane x (f / x.m) (f % x.m)).map cellValue)) :=
+  readReal_build x o h hel hw f hf sel
 
-/-- **Counterexample to the full statement** (open finding C19-single-entry-lut-unreadable; as the code is): when the
-selected mapping is a look-up table with ONE entry -- which `RealWorldValueMapping` accepts for a range `(v, v)` and
-`applyMapping` (`RealWorldValueMapping.apply`) evaluates on a frame that holds only `v` -- reading the frame with the
-real-world value transform raises a `TypeError`, whatever the frame holds. -/
-theorem counterexample_single_entry_lut (x : PMInput) (o : PMObject) (h : build x = .ok o)
+/-- the mapping that is applied is one of the frame's own mappings, and a one-entry table maps the frame that holds only
+its value (the input class of the fixed finding C19-rwvm-single-entry-lut) -/
+theorem read_single_entry_table (x : PMInput) (o : PMObject) (h : build x = .ok o)
     (hel : o.element = "PixelData") (hw : CellsWF x) (f : Nat) (hf : f < x.n * x.m) (sel : Selector) (mp : Mapping)
-    (hsel : select (x.maps (f % x.m)) sel = .ok mp) (hlut : mp.isLut = true) (y : Rat) (hone : mp.lut = [y]) :
-    readReal o f sel = .error .type ∧
-      ∀ (v : Int) (k : Nat), mp.first = (v : Rat) → applyMapping mp (List.replicate k v) = .ok (List.replicate k y) := by
-  constructor
-  · rw [readReal_build x o h hel hw f hf sel, hsel]
-    show applyOnRead mp _ = _
-    exact applyOnRead_single mp _ (by simp [Mapping.singleEntryLut, hlut, hone])
-  · intro v k hv
-    unfold applyMapping
-    rw [if_pos hlut, hv, hone]
-    induction k with
-    | zero => rfl
-    | succ n ih =>
-      rw [List.replicate_succ, List.mapM_cons, ih]
-      simp
-      rfl
+    (hsel : select (x.maps (f % x.m)) sel = .ok mp) (hlut : mp.isLut = true) (y : Rat) (hone : mp.lut = [y])
+    (v : Int) (hv : mp.first = (v : Rat)) (k : Nat) (hp : (plane x (f / x.m) (f % x.m)).map cellValue = List.replicate k v) :
+    mp ∈ x.maps (f % x.m) ∧ readReal o f sel = .ok (List.replicate k y) := by
+  refine ⟨select_mem _ _ _ hsel, ?_⟩
+  rw [readReal_build x o h hel hw f hf sel, hsel, hp]
+  clear hp
+  show applyMapping mp _ = _
+  unfold applyMapping
+  rw [if_pos hlut, hv, hone]
+  induction k with
+  | zero => rfl
+  | succ n ih =>
+    rw [List.replicate_succ, List.mapM_cons, ih]
+    simp
+    rfl
 
 /-- **`RealWorldValueMapping` accepts exactly** a look-up table for an integer range with one entry per value of the
 range and neither slope nor intercept, or a slope together with an intercept and no table (regenerated from
